@@ -137,6 +137,9 @@ def make_scenario(mode: str, nworkers: int, second_write: bool):
             try:
                 r = [writers[i](i + 2, b"x" * 8)]
                 if second_write and i == 0:
+                    # housekeeping between two writes of the same worker: a stale upload of the same key, left behind by an earlier crashed run, is aborted by id -
+                    # that is another upload's id, the running one is none of its business
+                    writers[i].mpu.cancel("stale-upload-of-an-earlier-run")
                     r.append(writers[i](i + 20, b"y" * 8))
                 results[i] = ("ok", r)
             except BaseException as e:  # noqa: BLE001
